@@ -140,7 +140,7 @@ def build(tier, seed):
                              'no-cutoff-peak-below-1%', 'n_cyc:0-d', 'n_cyc:(1,)', 'n_cyc:last-row', 'inverse-array-b',
                              'scalar-b', 'array-b', 'int-input', 'gm-different-components',
                              'first-excursion-max-at-0', 'zero-valued-sample',
-                             'delta:tuple', 'delta:float32', 'delta:int16', 'delta:A-B-A', 'delta:two-samples',
+                             'delta:tuple', 'delta:float32', 'delta:int16', 'delta:int16wide', 'delta:uint8', 'delta:A-B-A', 'delta:two-samples',
                              'delta:single-step', 'near-cutoff-below', 'near-cutoff-above', 'last-sample-is-excursion-max',
                              'power:tiny-amplitude', 'power:large-amplitude', 'power:tiny-joint-scale', 'power:int8', 'power:uint8',
                              'power:list', 'power:tuple', 'a_ref:int', 'b:np.float64', 'b:0-d', 'b:(1,)', 'n_cyc:int',
@@ -356,6 +356,10 @@ def run_delta(r, w, ext=False):
         # unsigned records raise TypeError in np.ediff1d.  Reported to the maintainer of this check; widen the factor /
         # add an unsigned record when repaired.
         configs.append(('int16', 0, NARROW_D))
+        # narrow / unsigned records whose STEPS leave the type's range (levels -30000 .. 30000 in int16: steps up to 60000; levels
+        # 0 .. 240 in uint8: every falling step is negative) - repaired by the widening of fix #34
+        configs.append(('int16wide', 0, 10000))
+        configs.append(('uint8', 0, 80))
     base = {}
     for kind, sh, sc in configs:
         if kind == 'float':
@@ -364,6 +368,10 @@ def run_delta(r, w, ext=False):
             arr = np.array(w, dtype=np.int64) + int(sh)
         elif kind == 'int16':
             arr = (np.array(w, dtype=np.int64) * sc).astype(np.int16)
+        elif kind == 'int16wide':
+            arr = ((2 * np.array(w, dtype=np.int64) - 3) * sc).astype(np.int16)
+        elif kind == 'uint8':
+            arr = (np.array(w, dtype=np.int64) * sc).astype(np.uint8)
         elif kind == 'float32':
             arr = np.array(w, dtype=np.float32)
             if arr.astype(float).tolist() != [float(v) for v in w]:
